@@ -25,6 +25,9 @@ CLAIMS = {
  "C12": ("model_checking",
    "Quiescence monitor of the engine's deterministic scheduler: after Parse/Generate/Eval returned, all goroutines are run to completion; a goroutine that stays blocked or is still running after 2M steps is a leak. Inputs: every way parsing can stop (N<=1/2 symbolic bytes, all truncations of 4 programs, byte mutations) and 10 pipelines with early-stopping consumers/failing elements over an effectively unbounded source with a symbolic argument. Counterexamples are confirmed natively by goroutine counts after a grace period.",
    "one call per path (accumulation over thousands of calls follows from one leaked goroutine per call); schedules: the deterministic baton schedule only; known finding: merge producers of the read-only iterator dependency"),
+ "C13": ("model_checking",
+   "Histories of 2 (thorough 3) map operations chosen by sym.Choice over live handles - put of a new and of an existing key, + with a disjoint and with an overlapping map, put combined with +, replace with keys inside, outside and mixed, replace chains of 12 (crossing the depth-10 flattening), + with 21 keys (crossing the 20-key hash-map branch), eval, map, accept - starting from four representations (literal, put, +, replaced and evaluated); a Go-map model of symbolic 64-bit values says what each handle contains. Every handle is then seen through ALL observers, each of which must agree with the model for every value: member access, get, isAvail, ~, size, list(), string() (entry set), iteration (each key once), accept, = against an independently built map in both directions and against changed/larger ones, JSON export key set, and the Go API (Get, Size, Iter). Duplicate put and overlapping merge must fail.",
+   "history length and key pool bounded; struct/function wrappers only via C17's funcmap shape; string() is checked as an entry set with values replaced by 0 (number formatting is not modelled symbolically)"),
  "C14": ("model_checking",
    "Each law of the statement is one solver obligation per kind pattern through the real Generate/Eval code: symmetry/reflexivity of =, Int/Float by numeric value (independent integer formulation), irreflexive/asymmetric/transitive < on all eight Int/Float patterns and strings, != > <= >= consistent with = and <, incomparable operands give errors for all six operators, ~ iff some element equal, min/max/order/switch agree; element-wise lists, key-wise maps in two representations, nested containers. Payloads symbolic: ints |x|<2^53, every float64 incl. NaN/+-0/Inf, strings of 2 symbolic bytes.",
    "kind patterns and container shapes (<=3 entries, nested once) are enumerated; strings longer than 2 bytes only via the concrete pool"),
